@@ -15,4 +15,4 @@ func build() []*G {
 
 func Pairings() []*P { return nil }
 
-const BuildConfig = "constantTime"
+var BuildConfig = "constantTime"
